@@ -277,7 +277,57 @@ def delimiters_stage(tier, rep):
     rep.cov["delimiter_calls_with_a_pair"] = sum(1 for _, t in keep for c in t["calls"] if any(d[3] >= 0 for d in c["out"]))
 
 
+def flank_record(job):
+    """One batch of real scanDelims calls: (last, marker, n, next) -> can_open, can_close, length."""
+    from markdown_it import MarkdownIt
+    from markdown_it.rules_inline.state_inline import StateInline
+
+    if not _LT:
+        _LT.append(MarkdownIt("commonmark"))
+    calls = []
+    for last, m, n, nxt in job:
+        src = ("" if last < 0 else chr(last)) + chr(m) * n + ("" if nxt < 0 else chr(nxt))
+        st = StateInline(src, _LT[0], {}, [])
+        r = st.scanDelims(0 if last < 0 else 1, m != 95)
+        calls.append([last, m, n, nxt, 1 if r.can_open else 0, 1 if r.can_close else 0, r.length])
+    return {"calls": calls}
+
+
+def flanking_stage(tier, rep):
+    """FlankingTrace.tla: CommonMark's flanking definition vs the real scanDelims, every pair over the alphabet."""
+    ws = [9, 10, 11, 12, 13, 32, 160, 5760, 8239, 8287, 12288] + list(range(8192, 8203))
+    ap = list(range(33, 48)) + list(range(58, 65)) + list(range(91, 97)) + list(range(123, 127))
+    up = [161, 167, 171, 187, 191, 8212, 8216, 8217, 8220, 8230, 12289, 12290, 65281]
+    ot = [48, 57, 65, 97, 122, 233, 223, 8364, 169, 176, 215, 768, 8203, 65279, 128512, 19968, 1488]
+    alpha = [-1] + ws + ap + up + ot
+    jobs, cur = [], []
+    for m in (42, 95, 126):
+        for a in alpha:
+            for b in alpha:
+                if a == m or b == m:
+                    continue
+                for n in ((1, 2, 3) if tier != "quick" or (a + b) % 3 == 0 else (1 + (a + b) % 3,)):
+                    cur.append((a, m, n, b))
+                    if len(cur) == 250:
+                        jobs.append(cur)
+                        cur = []
+    if cur:
+        jobs.append(cur)
+    traces = C.pmap(flank_record, jobs, chunk=8)
+    verdicts, st = C.validate_traces("FlankingTrace", traces, shard=60, heap="4g")
+    rep.tlc_stats("FlankingTrace", st, len(traces))
+    for job, t, (v, pos) in zip(jobs, traces, verdicts):
+        if v.startswith("harness:"):
+            raise C.MachineryError(f"FlankingTrace rejected the harness alphabet: {t['calls'][pos - 2]}")
+        if v != "ok":
+            c = t["calls"][pos - 2]
+            rep.violation(f"flanking:{v}:{c[:4]}", {"engine": "trace", "module": "FlankingTrace", "clause": v, "call": c,
+                                                    "input": {"flank_calls": [list(x) for x in job]}})
+    rep.cov["scanDelims_calls_validated"] = sum(len(j) for j in jobs)
+
+
 def run(tier, rep):
+    flanking_stage(tier, rep)
     linetable_stage(tier, rep)
     render_stage(tier, rep)
     delimiters_stage(tier, rep)
@@ -318,6 +368,11 @@ def run(tier, rep):
 
 def replay(case, rep):
     i = case["input"]
+    if "flank_calls" in i:
+        v, _ = C.validate_traces("FlankingTrace", [flank_record([tuple(x) for x in i["flank_calls"]])])
+        if v[0][0] != "ok":
+            rep.violation(case.get("key", "replay"), case)
+        return
     if "delim_config" in i:
         v, _ = C.validate_traces("DelimitersTrace", [delim_record((gen.cfg_key(i["delim_config"]), i["doc"]))])
         if v[0][0] != "ok":
